@@ -142,26 +142,7 @@ func c18Probe(file []byte, keys parquet.KeyRetriever, nrg, ncol int, bloomVals m
 				if err != nil {
 					return "", err
 				}
-				ix, err := cc.ColumnIndex()
-				if err != nil {
-					return "", err
-				}
-				ox, err := cc.OffsetIndex()
-				if err != nil {
-					return "", err
-				}
-				var parts []string
-				if ix != nil {
-					for p := 0; p < ix.NumPages(); p++ {
-						parts = append(parts, gen.ValueKey(ix.MinValue(p)), gen.ValueKey(ix.MaxValue(p)), fmt.Sprint(ix.NullCount(p), ix.NullPage(p)))
-					}
-				}
-				if ox != nil {
-					for p := 0; p < ox.NumPages(); p++ {
-						parts = append(parts, fmt.Sprint(ox.Offset(p), ox.CompressedPageSize(p), ox.FirstRowIndex(p)))
-					}
-				}
-				return c18Digest(parts...), nil
+				return c18IndexDigest(cc)
 			})
 			if v, ok := bloomVals[[2]int{gi, ci}]; ok {
 				probe(fmt.Sprintf("bloom rg%d col%d", gi, ci), func() (string, error) {
@@ -215,7 +196,58 @@ func c18Probe(file []byte, keys parquet.KeyRetriever, nrg, ncol int, bloomVals m
 		probe(fmt.Sprintf("rows rg%d", gi), func() (string, error) { return readRows(-1) })
 		probe(fmt.Sprintf("seek rg%d", gi), func() (string, error) { return readRows(5) })
 	}
+	// a second handle that skips the page index at open: the indexes are then opened lazily, one
+	// chunk at a time (file.go:946-1023), and a damaged index must only fail its own chunk's lookup
+	var lf *parquet.File
+	c18Guard("lazyopen", &out, func() (string, error) {
+		var err error
+		lf, err = parquet.OpenFile(bytes.NewReader(file), int64(len(file)), parquet.WithDecryption(keys), parquet.SkipPageIndex(true))
+		if err != nil {
+			return "", err
+		}
+		return "ok:open", nil
+	})
+	for gi := 0; gi < nrg; gi++ {
+		for ci := 0; ci < ncol; ci++ {
+			name := fmt.Sprintf("lazyindex rg%d col%d", gi, ci)
+			if lf == nil {
+				out = append(out, c18Outcome{name, "err:open"})
+				continue
+			}
+			gi, ci := gi, ci
+			c18Guard(name, &out, func() (string, error) {
+				if gi >= len(lf.RowGroups()) || ci >= len(lf.RowGroups()[gi].ColumnChunks()) {
+					return "", fmt.Errorf("row group or column missing")
+				}
+				return c18IndexDigest(lf.RowGroups()[gi].ColumnChunks()[ci])
+			})
+		}
+	}
 	return out
+}
+
+// c18IndexDigest reads the column index and the offset index of a chunk.
+func c18IndexDigest(cc parquet.ColumnChunk) (string, error) {
+	ix, err := cc.ColumnIndex()
+	if err != nil {
+		return "", err
+	}
+	ox, err := cc.OffsetIndex()
+	if err != nil {
+		return "", err
+	}
+	var parts []string
+	if ix != nil {
+		for p := 0; p < ix.NumPages(); p++ {
+			parts = append(parts, gen.ValueKey(ix.MinValue(p)), gen.ValueKey(ix.MaxValue(p)), fmt.Sprint(ix.NullCount(p), ix.NullPage(p)))
+		}
+	}
+	if ox != nil {
+		for p := 0; p < ox.NumPages(); p++ {
+			parts = append(parts, fmt.Sprint(ox.Offset(p), ox.CompressedPageSize(p), ox.FirstRowIndex(p)))
+		}
+	}
+	return c18Digest(parts...), nil
 }
 
 // ---------------------------------------------------------------- faults
@@ -249,8 +281,11 @@ func c18Touches(m c18Mod) []string {
 	switch m.Kind {
 	case "envelope":
 		return nil // kind unknown (blind layout)
-	case "footer", "columnMeta", "columnIndex", "offsetIndex":
-		return []string{"*"} // read (and opened) by OpenFile
+	case "footer", "columnMeta":
+		return []string{"*", "lazy*"} // read (and opened) by OpenFile
+	case "columnIndex", "offsetIndex":
+		// opened by OpenFile unless the page index is skipped, then by the chunk's lazy lookup
+		return []string{"*", fmt.Sprintf("lazyindex rg%d col%d", m.RG, m.Col)}
 	case "bloomHeader", "bloomBits":
 		return []string{fmt.Sprintf("bloom rg%d col%d", m.RG, m.Col)}
 	default:
@@ -462,7 +497,7 @@ func c18Faults(ctx *core.Ctx, r *rand.Rand, data, other []byte, lay, olay *c18La
 					scope = "other-slot-other-file"
 				}
 				fs = append(fs, c18Fault{Kind: "crossfile", Key: "kind=" + a.Kind + " scope=" + scope, Mods: []c18Mod{a},
-					Desc: fmt.Sprintf("replace %v by %v of a second file written with the same keys and configuration", a, b),
+					Desc:  fmt.Sprintf("replace %v by %v of a second file written with the same keys and configuration", a, b),
 					Apply: func(d []byte) []byte { copy(d[a.Off:a.Off+a.Len], other[b.Off:b.Off+b.Len]); return d }})
 			}
 		}
@@ -646,7 +681,11 @@ func c18TamperConfig(ctx *core.Ctx, ci int, cfg c18TCfg, big chan struct{}, cwg 
 						}
 						ctx.Fail("L1", key+" fault="+ft.Kind+" "+ft.Key+" probe="+strings.Fields(o.Name)[0],
 							"a read of the tampered file returns, without error, something else than the untouched file: "+o.Name, d(o, b.Out))
-					case ft.AllFail || must["*"] || must[o.Name]:
+					case ft.Kind == "strip-signature" && (o.Name == "open" || o.Name == "lazyopen"):
+						// Opening an unsigned footer is not refused (file.go:178: "Plain, unsigned footer —
+						// nothing to do"); what matters here is that no read returns data afterwards.
+						ctx.Hist("signature_stripped", o.Name+" succeeds")
+					case ft.AllFail || (must["*"] && !strings.HasPrefix(o.Name, "lazy")) || (must["lazy*"] && strings.HasPrefix(o.Name, "lazy")) || must[o.Name]:
 						key := "tampered-module-accepted"
 						if ft.Kind == "swap" || ft.Kind == "crossfile" {
 							key = "transplanted-module-accepted"
